@@ -58,25 +58,37 @@ func spxScenarioFor(name string) *spxScenario {
 
 // runSpxFamily explores the harnesses of prop and reports its rules.
 func runSpxFamily(c *fw.Ctx, prop string) {
-	var item int64 = 1 << 50
+	completed := map[string]int{}
+	capped := map[string]bool{}
+	for b := 1; b <= 3; b++ {
+		for hi, short := range spxProps[prop] {
+			sc := spxScenarioFor(short)
+			top := 1
+			if sc.Role == "server" {
+				top = 2
+			}
+			if c.Tier == "thorough" {
+				top++
+			}
+			if b > top || capped[sc.Name] {
+				continue
+			}
+			item := int64(1)<<50 + int64(hi)<<40
+			cp, n, pts := spxSearch(c, prop+" spx "+sc.Name, "spx:"+sc.Name, b, b, &item, func(prefix []int) spxOutcome {
+				return spxFuncExec(sc, prefix, prop)
+			})
+			if cp {
+				capped[sc.Name] = true
+				c.Bound["spx capped:"+sc.Name] = fmt.Sprintf("time budget reached at deviation bound %d after %d schedules of this shard", b, n)
+			} else {
+				completed[sc.Name] = b
+			}
+			c.Bound["spx points:"+sc.Name] = pts
+		}
+	}
 	for _, short := range spxProps[prop] {
 		sc := spxScenarioFor(short)
-		bound := 1
-		if sc.Role == "server" {
-			bound = 2
-		}
-		if c.Tier == "thorough" {
-			bound++
-		}
-		capped, n, pts := spxSearch(c, prop+" spx "+sc.Name, "spx:"+sc.Name, bound, &item, func(prefix []int) spxOutcome {
-			return spxFuncExec(sc, prefix, prop)
-		})
-		if capped {
-			c.Bound["spx capped:"+sc.Name] = fmt.Sprintf("time budget reached after %d schedules of this shard", n)
-		} else {
-			c.Bound["spx deviation_bound_completed:"+sc.Name] = bound
-		}
-		c.Bound["spx points:"+sc.Name] = pts
+		c.Bound["spx deviation_bound_completed:"+sc.Name] = completed[sc.Name]
 		c.Family("spx:" + sc.Name)
 	}
 }
